@@ -727,7 +727,7 @@ func (x *Exec) nilCheck(st *State, p PtrV, what string) {
 		return
 	}
 	nz := not(eq(p.Base, intLit(0)))
-	if x.safetyOn() {
+	if x.safetyKind("nil") {
 		x.safety(st, "nil", what, nz)
 	} else {
 		st.assume(nz)
